@@ -627,6 +627,18 @@ func (g *G) attr(a string, c *svcCtx) *Y {
 	return nil
 }
 
+// focusPool: every attribute once, those that reach files, other services or top-level resources several times
+var focusPool = func() []string {
+	p := append([]string(nil), svcAttrs...)
+	for a, w := range map[string]int{"env_file": 6, "label_file": 3, "depends_on": 4, "volumes": 3, "build": 3, "secrets": 2, "configs": 2, "networks": 2, "ports": 2, "environment": 3, "labels": 2, "extra_hosts": 2, "ulimits": 2, "healthcheck": 2, "deploy": 2} {
+		for i := 1; i < w; i++ {
+			p = append(p, a)
+		}
+	}
+	sort.Strings(p)
+	return p
+}()
+
 var uniqueLists = map[string]bool{"group_add": true, "device_cgroup_rules": true, "security_opt": true, "external_links": true, "volumes_from": true, "links": true}
 
 var svcAttrs = []string{"command", "entrypoint", "environment", "labels", "annotations", "env_file", "label_file", "ports", "expose", "volumes",
@@ -898,7 +910,7 @@ func GenLayoutForced(r *zsimrt.Run, forced map[string]bool) *Layout {
 	}
 	if stress || g.chance("has-focus", 2, 3) {
 		for {
-			g.focus = svcAttrs[g.n("focus", len(svcAttrs))]
+			g.focus = focusPool[g.n("focus", len(focusPool))]
 			if !uniqueLists[g.focus] && g.focus != "x-ext" && g.focus != "network_mode" && g.focus != "scale" && g.focus != "container_name" {
 				break
 			}
